@@ -600,6 +600,8 @@ pub enum C14Mode {
     Fault(FaultMode),
     /// refused input: the destination after the Err return
     Refused(Viol),
+    /// the converter binaries on refused inputs: what they leave at the output path
+    RefusedTool(crate::clifam::RefuseTool),
     /// crash points over a destination that already holds an older complete file (rewritten in
     /// place): every image is rejected, or serves the old file, or serves the new file - never a mixture
     CrashOver,
@@ -742,6 +744,21 @@ fn serve(bytes: &[u8], bed: bool) -> Option<Served> {
     })
     .ok()
     .flatten()
+}
+
+/// What a refused conversion left behind: rejected by the readers, or served without an error.
+pub fn judge_leftover(bytes: &[u8], bed: bool, tags: &[String], what: &str, out: &mut Outcome) {
+    match serve(bytes, bed) {
+        None => out.count("images_rejected", 1),
+        Some(s) => {
+            let bad = s.data.iter().chain(s.zooms.iter()).any(|d| d.is_err());
+            if bad || s.chroms.is_empty() {
+                out.fail("partial_file_after_refusal_accepted", tags, format!("after {} failed, the output file opens and serves {:?}", what, s));
+            } else {
+                out.count("images_accepted_and_served", 1);
+            }
+        }
+    }
 }
 
 fn generic_opens(bytes: &[u8]) -> bool {
@@ -900,6 +917,14 @@ impl Check for C14 {
                     v.push(C14Case { bed, nchrom: 2, items: 1500, opts: o.clone(), mode: C14Mode::Sched, part: Some((p, 8)) });
                 }
             }
+            // refused inputs through the built converters (the output path afterwards)
+            if bed {
+                for t in crate::clifam::refuse_tool_cases(quick) {
+                    if t.what != "valid" && !t.what.starts_with("merge_") {
+                        v.push(C14Case { bed: t.bed, nchrom: 3, items: 3, opts: Opts::base(), mode: C14Mode::RefusedTool(t), part: None });
+                    }
+                }
+            }
             // refused inputs
             for viol in [
                 Viol::StartsOutOfOrder { ci: 0, p: 0 },
@@ -1053,6 +1078,9 @@ impl Check for C14 {
                     out.fail("complete_file_rejected", &tags, "no prefix image was accepted".into());
                 }
                 out.outcome_hash = Some(fnv(&full_img));
+            }
+            C14Mode::RefusedTool(t) => {
+                crate::clifam::c14_tool(t, out);
             }
             C14Mode::CrashOver => {
                 // the older file: two more items per chromosome, so it is longer and serves other records
